@@ -1,3 +1,478 @@
+(* Proofs about the crash points of the block repository model (property C10):
+   - the mutation lists of model/BlockRepoCrash.v are faithful to model/BlockRepo.v;
+   - the store after ANY prefix of the mutations of ANY operation of a valid history is the
+     chunking of a prefix of the chain before or after that operation, hence loads to it. *)
 From V.lib Require Import Base.
 From V.model Require Import BlockRepo BlockRepoSpec BlockRepoCrash.
+From V.gen Require Import Consts.
 From V.proofs Require Import BlockRepo_Proofs.
+From Coq Require Import ZifyBool ZifyNat.
+
+Local Open Scope Z_scope.
+
+(* ---------------------------------------------------------------------------------------- *)
+(* Mutation lists and their images                                                           *)
+
+Lemma apply_muts_cons (st : gmap Z (list header)) m ms :
+  apply_muts st (m :: ms) = apply_muts (apply_mut st m) ms.
+Proof. reflexivity. Qed.
+
+Lemma apply_muts_app (st : gmap Z (list header)) ms1 ms2 :
+  apply_muts st (ms1 ++ ms2) = apply_muts (apply_muts st ms1) ms2.
+Proof. unfold apply_muts. apply fold_left_app. Qed.
+
+Lemma images_head (P : gmap Z (list header) -> Prop) st ms :
+  Forall P (prefixes_images st ms) -> P st.
+Proof.
+  intros HF. destruct ms as [|m ms]; cbn [prefixes_images] in HF;
+    apply Forall_cons in HF as [Hs _]; exact Hs.
+Qed.
+
+Lemma images_last (P : gmap Z (list header) -> Prop) ms : forall st,
+  Forall P (prefixes_images st ms) -> P (apply_muts st ms).
+Proof.
+  induction ms as [|m ms IH]; intros st HF.
+  - apply (images_head P st []). exact HF.
+  - rewrite apply_muts_cons. apply IH. cbn [prefixes_images] in HF.
+    apply Forall_cons in HF as [_ HF]. exact HF.
+Qed.
+
+Lemma images_app (P : gmap Z (list header) -> Prop) ms1 ms2 : forall st,
+  Forall P (prefixes_images st ms1) ->
+  Forall P (prefixes_images (apply_muts st ms1) ms2) ->
+  Forall P (prefixes_images st (ms1 ++ ms2)).
+Proof.
+  induction ms1 as [|m ms1 IH]; intros st H1 H2.
+  - exact H2.
+  - cbn [app prefixes_images]. cbn [prefixes_images] in H1.
+    apply Forall_cons in H1 as [Hs H1]. constructor; [exact Hs|].
+    apply IH; [exact H1|]. rewrite apply_muts_cons in H2. exact H2.
+Qed.
+
+(* ---------------------------------------------------------------------------------------- *)
+(* The mutation lists are faithful                                                           *)
+
+Lemma remove_muts_faithful K rm_err fuel : forall (st : gmap Z (list header)) rh t,
+  apply_muts st (remove_muts K rm_err st fuel rh t) = snd (remove_files K rm_err st fuel rh t).
+Proof.
+  induction fuel as [|fuel IH]; intros st rh t; cbn [remove_muts remove_files]; [reflexivity|].
+  destruct (rh >=? t); [|reflexivity]. unfold store in *.
+  destruct (st !! path K (rh + K)) as [hs|] eqn:E.
+  - rewrite apply_muts_cons. cbn [apply_mut]. apply IH.
+  - destruct rm_err; [reflexivity|apply IH].
+Qed.
+
+Lemma revert_muts_faithful K rm_err r (st : gmap Z (list header)) t :
+  apply_muts st (revert_muts K rm_err r st t) = snd (revert K rm_err r st t).
+Proof.
+  unfold revert_muts, revert.
+  destruct (t >? height r) eqn:E1; [reflexivity|]. destruct (t <? 0) eqn:E2; [reflexivity|].
+  cbn [orb].
+  destruct (collect_hashes K r (save K r st) (Z.to_nat (height r - t)) (height r))
+    as [removed|e|]; try reflexivity.
+  pose proof (remove_muts_faithful K rm_err (Z.to_nat (godiv (height r) K + 1)) (save K r st)
+                (godiv (height r) K * K - 1) t) as Hrm.
+  destruct (remove_files K rm_err (save K r st) (Z.to_nat (godiv (height r) K + 1))
+              (godiv (height r) K * K - 1) t) as [[rh|] st2]; cbn [snd] in Hrm.
+  - unfold store in *. destruct (st2 !! path K (rh + K)) as [data|] eqn:E3.
+    + destruct ((t - rh <? K) && (zlen data >? t - rh)) eqn:E4; cbn [snd].
+      * rewrite apply_muts_cons. cbn [apply_mut]. rewrite apply_muts_app.
+        change (<[path K (height r):=lasth r]> st) with (save K r st). rewrite Hrm. reflexivity.
+      * rewrite apply_muts_cons. exact Hrm.
+    + cbn [snd]. rewrite apply_muts_cons. exact Hrm.
+  - cbn [snd]. rewrite apply_muts_cons. exact Hrm.
+Qed.
+
+Lemma add_n_muts_faithful K n : forall r (st : gmap Z (list header)) id prev,
+  apply_muts st (add_n_muts K r st n id prev) = snd (add_n K r st n id prev).
+Proof.
+  induction n as [|n IH]; intros r st id prev; cbn [add_n_muts add_n]; [reflexivity|].
+  unfold add. destruct (zlen (lasth r) =? K) eqn:E.
+  - cbn [app]. rewrite apply_muts_cons. apply IH.
+  - cbn [app]. apply IH.
+Qed.
+
+Theorem mutations_faithful :
+  forall (K : Z) (rm_err : bool) (s : repo * store) (o : op),
+    0 < K -> apply_muts (snd s) (op_muts K rm_err s o) = snd (fst (step K rm_err s o)).
+Proof.
+  intros K rm_err [r st] o _. cbn [snd].
+  destruct o as [id prev time|first n|t| | | | |id|id|h|h|h|h|h maxc| ];
+    cbn [op_muts step fst snd]; try reflexivity.
+  - (* OAdd *)
+    unfold add. destruct (zlen (lasth r) =? K); reflexivity.
+  - (* OAddN *)
+    apply add_n_muts_faithful.
+  - (* ORevert *)
+    rewrite revert_muts_faithful. destruct (revert K rm_err r st t) as [[x r1] st1]. reflexivity.
+  - (* OLoad *)
+    destruct (load K st); reflexivity.
+Qed.
+
+(* ---------------------------------------------------------------------------------------- *)
+(* Prefix stores: the store is the chunking of the first n headers of c                      *)
+
+Definition pstore (K : Z) (st : gmap Z (list header)) (c : list header) (n : Z) : Prop :=
+  0 <= n <= zlen c /\ forall i, st !! i = file_at K (take (Z.to_nat n) c) i.
+
+Lemma R_pstore K r st a : 0 < K -> R K r st a -> pstore K st (chain a) (saved a).
+Proof.
+  intros HK [Hne Hnd Hh Hs Hl Hhs Hst].
+  destruct (fidx_bounds K (chain a) HK Hne) as (Hf0 & HfK0 & Hfb).
+  split; [lia|exact Hst].
+Qed.
+
+Lemma pstore_app K st c ext n : pstore K st c n -> pstore K st (c ++ ext) n.
+Proof.
+  intros [Hn Hst]. split.
+  - rewrite zlen_app. pose proof (zlen_nonneg ext). lia.
+  - intros i. rewrite Hst. rewrite take_app_le by (unfold zlen in *; lia). reflexivity.
+Qed.
+
+(* a repository representing the fully persisted chain p (only used to reuse load_R) *)
+Lemma R_of_prefix K p (st : gmap Z (list header)) :
+  0 < K -> p <> [] -> NoDup (map hid p) -> (forall i, st !! i = file_at K p i) ->
+  R K (Repo (zlen p - 1) (drop (Z.to_nat (fidx K p * K)) p) (add_heights ∅ p 0)) st
+      (AState p (zlen p)).
+Proof.
+  intros HK Hne Hnd Hst. destruct (fidx_bounds K p HK Hne) as (Hf0 & HfK0 & Hfb).
+  constructor; cbn [chain saved height lasth heights].
+  - exact Hne.
+  - exact Hnd.
+  - reflexivity.
+  - lia.
+  - reflexivity.
+  - intros id. rewrite find_id_from. apply (add_heights_spec p [] ∅).
+    + intros id'. rewrite lookup_empty. reflexivity.
+    + exact Hnd.
+  - intros i. rewrite Hst. rewrite take_ge by (unfold zlen; lia). reflexivity.
+Qed.
+
+Lemma load_prefix K p (st : gmap Z (list header)) :
+  0 < K -> p <> [] -> NoDup (map hid p) -> (forall i, st !! i = file_at K p i) ->
+  exists r', load K st = Ok r' /\ R K r' st (AState p (zlen p)).
+Proof.
+  intros HK Hne Hnd Hst.
+  destruct (load_R K _ st _ HK (R_of_prefix K p st HK Hne Hnd Hst)) as (r' & Hl & HR).
+  exists r'. split; [exact Hl|]. cbn [saved chain] in HR. pose proof (zlen_pos p Hne) as Hp.
+  destruct (zlen p =? 0) eqn:E; [lia|].
+  rewrite take_ge in HR by (unfold zlen; lia). exact HR.
+Qed.
+
+Lemma load_empty K (st : gmap Z (list header)) :
+  0 < K -> (forall i, st !! i = None) ->
+  exists r', load K st = Ok r' /\ R K r' st (AState [genesis] 0).
+Proof.
+  intros HK Hst.
+  assert (HR : R K (fst init_state) st a_init).
+  { destruct (R_init K HK) as [H1 H2 H3 H4 H5 H6 H7]. constructor; try assumption.
+    intros i. rewrite Hst. symmetry. apply file_at_None; [exact HK|].
+    cbn [a_init chain saved]. rewrite take_0. change (zlen []) with 0.
+    destruct (Z.lt_ge_cases i 0); [left; lia|right; nia]. }
+  destruct (load_R K _ st _ HK HR) as (r' & Hl & HR'). exists r'. split; [exact Hl|exact HR'].
+Qed.
+
+(* a prefix store of a chain that starts with the genesis header loads to a non-empty prefix *)
+Lemma pstore_loadable K (st : gmap Z (list header)) c n :
+  0 < K -> NoDup (map hid c) -> (exists c', c = genesis :: c') -> pstore K st c n ->
+  exists r' n' m, load K st = Ok r' /\ 1 <= n' <= zlen c /\
+                  R K r' st (AState (take (Z.to_nat n') c) m).
+Proof.
+  intros HK Hnd [c' Hc] [Hn Hst].
+  destruct (decide (n = 0)) as [Hn0|Hn0].
+  - subst n. destruct (load_empty K st HK) as (r' & Hl & HR).
+    { intros i. rewrite Hst. apply file_at_None; [exact HK|].
+      change (Z.to_nat 0) with 0%nat. rewrite take_0. change (zlen []) with 0.
+      destruct (Z.lt_ge_cases i 0); [left; lia|right; nia]. }
+    exists r', 1, 0. split; [exact Hl|]. subst c. split; [|exact HR].
+    rewrite zlen_cons. pose proof (zlen_nonneg c'). lia.
+  - set (p := take (Z.to_nat n) c) in *.
+    assert (Hzp : zlen p = n) by (subst p; rewrite zlen_take; lia).
+    destruct (load_prefix K p st HK) as (r' & Hl & HR).
+    + intros Heq. rewrite Heq in Hzp. change (zlen []) with 0 in Hzp. lia.
+    + apply NoDup_map_take. exact Hnd.
+    + exact Hst.
+    + exists r', n, (zlen p). split; [exact Hl|]. split; [lia|exact HR].
+Qed.
+
+(* ---------------------------------------------------------------------------------------- *)
+(* Images of the single operations                                                           *)
+
+(* the image is a prefix store of the chain before or after the operation *)
+Definition pimg (K : Z) (before after : list header) (st' : gmap Z (list header)) : Prop :=
+  exists c n, (c = before \/ c = after) /\ pstore K st' c n.
+
+Lemma save_pstore K r st a :
+  0 < K -> R K r st a -> pstore K (save K r st) (chain a) (zlen (chain a)).
+Proof.
+  intros HK HR. apply (R_pstore K r _ _ HK (save_R K r st a HK HR)).
+Qed.
+
+Lemma spec_addn_chain K k : forall a id prev,
+  exists ext, chain (spec_addn K k a id prev) = chain a ++ ext.
+Proof.
+  induction k as [|k IH]; intros a id prev; cbn [spec_addn].
+  - exists []. rewrite app_nil_r. reflexivity.
+  - match goal with |- context [spec_addn K k ?a1 ?i ?p] => destruct (IH a1 i p) as [ext Hext] end.
+    cbn [chain] in Hext. eexists. rewrite Hext, <- app_assoc. reflexivity.
+Qed.
+
+Lemma addn_images K k : forall r (st : gmap Z (list header)) a id prev,
+  0 < K -> R K r st a -> fresh_range (chain a) k id = true ->
+  Forall (fun st' => exists n, pstore K st' (chain (spec_addn K k a id prev)) n)
+         (prefixes_images st (add_n_muts K r st k id prev)).
+Proof.
+  induction k as [|k IH]; intros r st a id prev HK HR Hfr; cbn [add_n_muts spec_addn].
+  - cbn [prefixes_images]. constructor; [|constructor]. exists (saved a).
+    apply (R_pstore K r st a HK HR).
+  - cbn [fresh_range] in Hfr. apply andb_true_iff in Hfr as [Hf Hr].
+    pose proof (add_R K r st a (Header id prev (time_of_id id)) HK HR Hf) as HR1.
+    set (a1 := AState (chain a ++ [Header id prev (time_of_id id)])
+                      (if Z.rem (zlen (chain a)) K =? 0 then zlen (chain a) else saved a)) in *.
+    destruct (spec_addn_chain K k a1 (id + 1) id) as [ext Hext].
+    assert (Hst : exists n, pstore K st (chain (spec_addn K k a1 (id + 1) id)) n).
+    { exists (saved a). rewrite Hext. subst a1. cbn [chain]. rewrite <- app_assoc.
+      apply pstore_app. apply (R_pstore K r st a HK HR). }
+    assert (Hfr1 : fresh_range (chain a1) k (id + 1) = true).
+    { subst a1. cbn [chain]. apply fresh_range_app; [cbn [hid]; lia|exact Hr]. }
+    pose proof (IH _ _ a1 (id + 1) id HK HR1 Hfr1) as HI.
+    unfold add in *. destruct (zlen (lasth r) =? K) eqn:E; cbn [fst snd app] in *.
+    + cbn [prefixes_images]. constructor; [exact Hst|]. exact HI.
+    + exact HI.
+Qed.
+
+(* the images of Revert's second loop: files 0..g' of the chunking of the whole chain *)
+Lemma remove_muts_images K rm_err c fuel : forall (st : gmap Z (list header)) g t,
+  0 < K -> 0 <= t -> t / K <= g -> g * K < zlen c ->
+  (forall i, st !! i = if i <=? g then file_at K c i else None) ->
+  Forall (fun st' : gmap Z (list header) =>
+            exists g', t / K <= g' <= g /\
+              forall i, st' !! i = if i <=? g' then file_at K c i else None)
+         (prefixes_images st (remove_muts K rm_err st fuel (g * K - 1) t)).
+Proof.
+  induction fuel as [|fuel IH]; intros st g t HK Ht Hg Hgc Hst.
+  - cbn [remove_muts prefixes_images]. constructor; [|constructor]. exists g. split; [lia|exact Hst].
+  - pose proof (div_bounds t K HK) as Hb. pose proof (div_nonneg t K HK Ht) as Hf0.
+    set (f' := t / K) in *. cbn [remove_muts].
+    destruct (g * K - 1 >=? t) eqn:E.
+    + assert (Hlt : f' < g) by (apply (mul_lt_K_inv f' g K HK); lia).
+      assert (Hp : path K (g * K - 1 + K) = g).
+      { unfold path. rewrite godiv_div by nia. apply div_unique_bounds; lia. }
+      rewrite Hp. unfold store in *. rewrite Hst.
+      destruct (g <=? g) eqn:E2; [|lia]. rewrite file_at_Some by lia.
+      cbn [prefixes_images apply_mut]. unfold store in *. constructor.
+      * exists g. split; [lia|exact Hst].
+      * replace (g * K - 1 - K) with ((g - 1) * K - 1) by lia.
+        eapply Forall_impl.
+        -- apply (IH (delete g st) (g - 1) t HK Ht); fold f'; [lia|lia|].
+           intros i. destruct (decide (i = g)) as [->|Hne].
+           ++ rewrite lookup_delete. destruct (g <=? g - 1) eqn:E3; [lia|reflexivity].
+           ++ rewrite lookup_delete_ne by congruence. rewrite Hst.
+              destruct (i <=? g) eqn:E3; destruct (i <=? g - 1) eqn:E4; try lia; reflexivity.
+        -- intros st' (g' & Hg' & Hst'). exists g'. fold f' in Hg'. split; [lia|exact Hst'].
+    + cbn [prefixes_images]. constructor; [|constructor]. exists g. split; [lia|exact Hst].
+Qed.
+
+Lemma files_upto_pstore K c (st : gmap Z (list header)) g :
+  0 < K -> 0 <= g -> g * K < zlen c ->
+  (forall i, st !! i = if i <=? g then file_at K c i else None) ->
+  pstore K st c (Z.min ((g + 1) * K) (zlen c)).
+Proof.
+  intros HK Hg Hgc Hst. assert (HgK : 0 <= g * K) by nia. split; [lia|].
+  intros i. rewrite Hst. destruct (i <=? g) eqn:E.
+  - destruct (Z.lt_ge_cases i 0) as [Hi|Hi]; [rewrite !file_at_None by lia; reflexivity|].
+    destruct (Z.le_gt_cases ((g + 1) * K) (zlen c)) as [Hle|Hgt].
+    + rewrite Z.min_l by lia. symmetry.
+      pose proof (mul_le_mono_K (i + 1) (g + 1) K HK ltac:(lia)).
+      apply file_at_take_full; lia.
+    + rewrite Z.min_r by lia. rewrite take_ge by (unfold zlen; lia). reflexivity.
+  - symmetry. apply file_at_None; [exact HK|]. right. rewrite zlen_take.
+    pose proof (mul_le_mono_K (g + 1) i K HK ltac:(lia)). lia.
+Qed.
+
+(* the images of a Revert: the store before, the images of the second loop started on the saved
+   store, and the final store *)
+Lemma revert_muts_images K rm_err (P : gmap Z (list header) -> Prop) r
+      (st : gmap Z (list header)) t :
+  P st ->
+  Forall P (prefixes_images (save K r st)
+              (remove_muts K rm_err (save K r st) (Z.to_nat (godiv (height r) K + 1))
+                           (godiv (height r) K * K - 1) t)) ->
+  P (apply_muts st (revert_muts K rm_err r st t)) ->
+  Forall P (prefixes_images st (revert_muts K rm_err r st t)).
+Proof.
+  intros Hst Hrm Hfin. unfold revert_muts in *.
+  set (rms := remove_muts K rm_err (save K r st) (Z.to_nat (godiv (height r) K + 1))
+                          (godiv (height r) K * K - 1) t) in *.
+  set (w0 := MWrite (path K (height r)) (lasth r)) in *.
+  pose proof (images_head P _ _ Hrm) as Hs1.
+  assert (Hw0 : Forall P (prefixes_images st (w0 :: rms))).
+  { cbn [prefixes_images]. constructor; [exact Hst|exact Hrm]. }
+  destruct ((t >? height r) || (t <? 0)); [constructor; [exact Hst|constructor]|].
+  destruct (collect_hashes K r (save K r st) (Z.to_nat (height r - t)) (height r))
+    as [removed|e|];
+    try (cbn [prefixes_images]; constructor; [exact Hst|constructor; [exact Hs1|constructor]]).
+  destruct (remove_files K rm_err (save K r st) (Z.to_nat (godiv (height r) K + 1))
+              (godiv (height r) K * K - 1) t) as [[rh|] st2]; [|exact Hw0].
+  unfold store in *. destruct (st2 !! path K (rh + K)) as [data|]; [|exact Hw0].
+  destruct ((t - rh <? K) && (zlen data >? t - rh)); [|exact Hw0].
+  rewrite app_comm_cons in *. apply images_app; [exact Hw0|].
+  cbn [prefixes_images]. constructor; [apply images_last; exact Hw0|].
+  constructor; [|constructor]. rewrite apply_muts_app in Hfin. exact Hfin.
+Qed.
+
+Lemma revert_images K rm_err r (st : gmap Z (list header)) a t :
+  0 < K -> R K r st a ->
+  Forall (pimg K (chain a) (chain (fst (spec_step K a (ORevert t)))))
+         (prefixes_images st (revert_muts K rm_err r st t)).
+Proof.
+  intros HK HR. pose proof (R_pstore K r st a HK HR) as Hps.
+  assert (Hst : pimg K (chain a) (chain (fst (spec_step K a (ORevert t)))) st).
+  { exists (chain a), (saved a). split; [left; reflexivity|exact Hps]. }
+  pose proof (R_height _ _ _ _ HR) as Hh. pose proof (R_ne _ _ _ _ HR) as Hne.
+  destruct ((t >? height r) || (t <? 0)) eqn:E.
+  - unfold revert_muts. rewrite E. cbn [prefixes_images]. constructor; [exact Hst|constructor].
+  - apply revert_muts_images; [exact Hst| |].
+    + (* the second loop *)
+      pose proof (save_pstore K r st a HK HR) as [_ Hst1].
+      rewrite take_ge in Hst1 by (unfold zlen; lia).
+      set (c := chain a) in *.
+      destruct (fidx_bounds K c HK Hne) as (Hf0 & HfK0 & Hfb).
+      rewrite (godiv_div (height r) K) by lia. rewrite Hh. fold (fidx K c).
+      set (f := fidx K c) in *.
+      pose proof (div_bounds t K HK) as Hb.
+      assert (Hff : t / K <= f).
+      { assert (t / K < f + 1) by (apply (mul_lt_K_inv (t / K) (f + 1) K HK); lia). lia. }
+      eapply Forall_impl.
+      * apply (remove_muts_images K rm_err c (Z.to_nat (f + 1)) (save K r st) f t HK);
+          [lia|exact Hff|lia|].
+        intros i. rewrite Hst1. destruct (i <=? f) eqn:E3; [reflexivity|].
+        pose proof (mul_le_mono_K (f + 1) i K HK ltac:(lia)). apply file_at_None; lia.
+      * intros st' (g' & Hg' & Hst'). pose proof (div_nonneg t K HK ltac:(lia)) as Hd0.
+        pose proof (mul_le_mono_K g' f K HK ltac:(lia)).
+        exists c, (Z.min ((g' + 1) * K) (zlen c)). split; [left; reflexivity|].
+        apply files_upto_pstore; [exact HK|lia|lia|exact Hst'].
+    + (* the final store *)
+      rewrite revert_muts_faithful.
+      destruct (revert_R K rm_err r st a t HK HR ltac:(lia)) as (r' & st' & Hrev & HR').
+      rewrite Hrev. cbn [snd]. cbn [spec_step]. unfold tip_height.
+      destruct ((t >? zlen (chain a) - 1) || (t <? 0)) eqn:E2; [lia|]. cbn [fst chain].
+      eexists _, _. split; [right; reflexivity|].
+      apply (R_pstore K r' st' _ HK HR').
+Qed.
+
+Lemma op_images K rm_err r (st : gmap Z (list header)) a o :
+  0 < K -> R K r st a -> op_valid a o = true ->
+  Forall (pimg K (chain a) (chain (fst (spec_step K a o))))
+         (prefixes_images st (op_muts K rm_err (r, st) o)).
+Proof.
+  intros HK HR Hv. pose proof (R_pstore K r st a HK HR) as Hps.
+  assert (Hst : forall after, pimg K (chain a) after st).
+  { intros after. exists (chain a), (saved a). split; [left; reflexivity|exact Hps]. }
+  assert (Hsv : forall after, pimg K (chain a) after (save K r st)).
+  { intros after. exists (chain a), (zlen (chain a)). split; [left; reflexivity|].
+    apply (save_pstore K r st a HK HR). }
+  destruct o as [id prev time|first n|t| | | | |id|id|h|h|h|h|h maxc| ];
+    try solve [cbn [op_muts prefixes_images]; constructor; [apply Hst|apply Forall_nil_2]].
+  - (* OAdd *)
+    cbn [op_muts]. destruct (zlen (lasth r) =? K); cbn [prefixes_images apply_mut].
+    + constructor; [apply Hst|]. constructor; [apply Hsv|constructor].
+    + constructor; [apply Hst|constructor].
+  - (* OAddN *)
+    destruct (last_hash_spec K r st a HK HR) as (x & Hlast & Hlh).
+    rewrite spec_step_addn. cbn [op_muts fst]. rewrite Hlast, Hlh.
+    eapply Forall_impl; [apply (addn_images K (Z.to_nat n) r st a first (hid x) HK HR Hv)|].
+    intros st' [m Hm]. eexists _, m. split; [right; reflexivity|exact Hm].
+  - (* ORevert *)
+    cbn [op_muts]. apply revert_images; assumption.
+  - (* OSave *)
+    cbn [op_muts prefixes_images apply_mut].
+    constructor; [apply Hst|]. constructor; [apply Hsv|constructor].
+Qed.
+
+(* ---------------------------------------------------------------------------------------- *)
+(* Along valid histories the chain always starts with the genesis header                     *)
+
+Lemma head_step K r st a o :
+  0 < K -> R K r st a -> (exists c', chain a = genesis :: c') ->
+  exists c', chain (fst (spec_step K a o)) = genesis :: c'.
+Proof.
+  intros HK HR [c' Hc].
+  destruct o as [id prev time|first n|t| | | | |id|id|h|h|h|h|h maxc| ];
+    try (cbn [spec_step fst]; exists c'; exact Hc).
+  - cbn [spec_step fst chain]. rewrite Hc. eexists. reflexivity.
+  - rewrite spec_step_addn. cbn [fst].
+    match goal with |- context [spec_addn K ?k ?a1 ?i ?p] =>
+      destruct (spec_addn_chain K k a1 i p) as [ext Hext] end.
+    rewrite Hext, Hc. eexists. reflexivity.
+  - cbn [spec_step]. destruct ((t >? tip_height (chain a)) || (t <? 0)) eqn:E;
+      cbn [fst chain]; [exists c'; exact Hc|].
+    rewrite Hc. replace (Z.to_nat (t + 1)) with (S (Z.to_nat t)) by lia. cbn [take].
+    eexists. reflexivity.
+  - cbn [spec_step fst]. destruct (saved a =? 0) eqn:E; cbn [chain]; [eexists; reflexivity|].
+    pose proof (R_pstore K r st a HK HR) as [Hs _]. rewrite Hc.
+    replace (Z.to_nat (saved a)) with (S (Z.to_nat (saved a - 1))) by lia. cbn [take].
+    eexists. reflexivity.
+Qed.
+
+(* ---------------------------------------------------------------------------------------- *)
+(* Main theorems                                                                             *)
+
+Lemma crash_gen K rm_err :
+  0 < K -> forall ops r st a,
+    R K r st a -> (exists c', chain a = genesis :: c') -> valid_from K a ops = true ->
+    Forall (fun img =>
+              let '(st', before, after) := img in
+              exists r' c n m,
+                (c = before \/ c = after) /\
+                load K st' = Ok r' /\ 1 <= n <= zlen c /\
+                R K r' st' (AState (take (Z.to_nat n) c) m))
+           (crash_images K rm_err (r, st) a ops).
+Proof.
+  intros HK. induction ops as [|o ops IH]; intros r st a HR Hhd Hv; [constructor|].
+  cbn [crash_images valid_from] in *. apply andb_true_iff in Hv as [Hv1 Hv2].
+  destruct (step_R K rm_err r st a o HK HR Hv1) as (r1 & st1 & Hstep & HR1).
+  pose proof (head_step K r st a o HK HR Hhd) as Hhd1.
+  pose proof (op_images K rm_err r st a o HK HR Hv1) as Him.
+  rewrite Hstep. cbn [fst snd]. apply Forall_app. split.
+  - apply List.Forall_map. eapply Forall_impl; [exact Him|].
+    intros st' (c & n & Hc & Hp).
+    assert (Hcc : NoDup (map hid c) /\ exists c', c = genesis :: c').
+    { destruct Hc as [->| ->]; (split; [eapply R_nodup; eassumption|assumption]). }
+    destruct Hcc as [Hnd Hh].
+    destruct (pstore_loadable K st' c n HK Hnd Hh Hp) as (r' & n' & m & Hl & Hn' & HR').
+    exists r', c, n', m. split; [exact Hc|]. split; [exact Hl|]. split; [exact Hn'|exact HR'].
+  - apply (IH r1 st1 _ HR1 Hhd1 Hv2).
+Qed.
+
+Theorem crash_prefix_loadable :
+  forall (K : Z) (rm_err : bool) (ops : list op),
+    0 < K -> valid K ops = true ->
+    Forall (fun img =>
+              let '(st', before, after) := img in
+              exists r' c n m,
+                (c = before \/ c = after) /\
+                load K st' = Ok r' /\ 1 <= n <= zlen c /\
+                R K r' st' (AState (take (Z.to_nat n) c) m))
+           (crash_images K rm_err init_state a_init ops).
+Proof.
+  intros K rm_err ops HK Hv.
+  apply (crash_gen K rm_err HK ops (fst init_state) (snd init_state) a_init).
+  - apply R_init. exact HK.
+  - exists []. reflexivity.
+  - exact Hv.
+Qed.
+
+Theorem crash_prefix_loadable_real :
+  forall (rm_err : bool) (ops : list op),
+    valid blocksPerKey ops = true ->
+    Forall (fun img =>
+              let '(st', before, after) := img in
+              exists r' c n m,
+                (c = before \/ c = after) /\
+                load blocksPerKey st' = Ok r' /\ 1 <= n <= zlen c /\
+                R blocksPerKey r' st' (AState (take (Z.to_nat n) c) m))
+           (crash_images blocksPerKey rm_err init_state a_init ops).
+Proof.
+  intros rm_err ops Hv. apply crash_prefix_loadable; [unfold blocksPerKey; lia|exact Hv].
+Qed.
